@@ -65,3 +65,10 @@ func (s *Service) VerifPresenceBarrier() {
 	<-v.done
 	s.subscriptions.Unsubscribe(pssid, v)
 }
+
+// VerifStartSurvey does what Listen does for the surveyor (subscribe it to the query channel) and makes its queries
+// wait for `peers` answers.
+func (s *Service) VerifStartSurvey(peers int) {
+	s.surveyor.VerifSetPeers(peers)
+	s.surveyor.Start()
+}
